@@ -723,6 +723,7 @@ func addJitter(duration time.Duration, jitterPercent float64) time.Duration {
 }
 
 func ShutdownSignalChan() <-chan struct{} {
+	verifhook.At("utils.signals.install")
 	// Listen for shutdown signal.
 	sigs := make(chan os.Signal, 1)
 	ch := make(chan struct{})
